@@ -481,6 +481,25 @@ def _was_unsat_before(hist):
     return not ref.consistent(w.evs[w.active], w.cons[w.active])
 
 
+def is_new(level, hist):
+    """The configs of a tier nest (config 0 contains every all-integer history over A,B,C with at
+    most one copy and length <= 4 of the later configs).  A later config judges everything it visits
+    but counts / reports only what config 0 does not contain, so that the evidence counters are
+    counts of DISTINCT histories."""
+    if level == 0:
+        return True
+    if len(hist) > 4 or sum(1 for op in hist if op[0] == "copy") > 1:
+        return True
+    for op in hist:
+        if op[0] == "copy":
+            continue
+        if "D" in op[1:3]:
+            return True
+        if any(isinstance(b, tuple) for b in op[3:]):
+            return True
+    return False
+
+
 def shards(tier, seed):
     out = []
     for level, cfg in enumerate(configs(tier)):
@@ -518,24 +537,28 @@ def run_shard(shard, tier, seed):
                 viols, info = [], None
             else:
                 viols, w, info = judge(hist)
-                acc.count("transitions")
-                acc.outcome(info["outcome"])
-                if info.get("nontrivial"):
-                    acc.count("nontrivial")
+                new = is_new(shard["level"], hist)  # histories of an earlier config are counted there
+                if new:
+                    acc.count("transitions")
+                    acc.outcome(info["outcome"])
+                    if info.get("nontrivial"):
+                        acc.count("nontrivial")
                 if viols:
-                    report(acc, hist, viols)
+                    if new:
+                        report(acc, hist, viols)
                     if viols[0][0].startswith("hang"):
                         acc.count("hangs")
                         if acc.c["hangs"] >= 3:
                             acc.count("shards_aborted_after_hangs")
                             return acc
                     continue  # do not explore beyond a disagreement
-                acc.count("traces")
+                if new:
+                    acc.count("traces")
             key = w.canon()
             if key in seen:
                 continue
             seen.add(key)
-            if not (first and start_judged):
+            if not (first and start_judged) and is_new(shard["level"], hist):
                 acc.count("states")
             if len(hist) >= stop:
                 continue
